@@ -1,8 +1,8 @@
 #!/verif/.venv/bin/python
 # Replay of a solver counterexample against the unmodified code (no shims).
-# property=C16 kernel=phase_fp label=k4:fp_phase_below_2pi
+# property=C16 kernel=pulse label=k4:arb_phase_reproduced
 import sys
 sys.path[:0] = ['/repo' + "/pulser-core", '/repo' + "/pulser-simulation", "/verif"]
 from symx.replay import replay
-sys.exit(replay(check='checks.c16', kernel='phase_fp', shape={},
-                assignment={'x_bits': 9223372036854775936}, label='k4:fp_phase_below_2pi'))
+sys.exit(replay(check='checks.c16', kernel='pulse', shape={'what': 'arb', 'kind': 'custom', 'n': 3},
+                assignment={'phi0': '-17422457186355534183439796194906589827615331/1045343946689685696602890804721280880738304', 'phi1': '-4355614296588883500525230813168986461775123031/130667993336210712075361350590160110092288000', 'phi2': '-50/1'}, label='k4:arb_phase_reproduced'))
